@@ -25,7 +25,13 @@ def main():
     src = "/tmp/seed_out"
     if "--src" in sys.argv:
         src = sys.argv[sys.argv.index("--src") + 1]
-    d = os.path.join(src, cid)
+    sub = cid
+    if "--dir" in sys.argv:  # directory name under src when it differs from the property id
+        sub = sys.argv[sys.argv.index("--dir") + 1]
+    out_n = n
+    if "--as" in sys.argv:   # number to file it under
+        out_n = sys.argv[sys.argv.index("--as") + 1]
+    d = os.path.join(src, sub)
     patch, demo, meta = (os.path.join(d, f"{x}{n}.{e}") for x, e in
                          (("patch", "diff"), ("demo", "py"), ("meta", "json")))
     tmp = tempfile.mkdtemp(prefix="vf_seed_")
@@ -57,7 +63,7 @@ def main():
         # regenerate the diff against the current tree so that it applies cleanly
         r = sh(f"diff -ruN -x __pycache__ -x '*.pyc' /repo/cisco_acl {repo}/cisco_acl")
         body = r.stdout.replace(f"{repo}/", "b/").replace("/repo/", "a/")
-        dst = os.path.join(HERE, "seeded", f"{cid}_{n}")
+        dst = os.path.join(HERE, "seeded", f"{cid}_{out_n}")
         os.makedirs(dst, exist_ok=True)
         with open(os.path.join(dst, "patch.diff"), "w") as fh:
             fh.write(body)
